@@ -59,11 +59,16 @@ type opData struct {
 // Driver implements mc.Driver.
 type Driver struct{ V Variant }
 
+// lookAlike is an ordinary coin named like a liquidity token of pool 1 (lpt-1) but for its prefix.
+const lookAlike = "fake-1"
+
 func New(v Variant) func() (*mc.Env, mc.Driver) {
 	return func() (*mc.Env, mc.Driver) {
 		rich := mc.Big(135)
 		coins := sdk.NewCoins(mc.CI(std, rich), mc.CI("btc", rich), mc.CI("eth", rich), mc.CI("usdt", rich), mc.CI("ada", rich))
-		e := mc.NewEnv(mc.EnvOptions{Balances: map[string]sdk.Coins{"A": coins, "B": coins, "C": coins, "R": nil}})
+		// C also holds a coin whose name merely looks like a liquidity token of the first pool ("<word>-<pool sequence>")
+		cCoins := coins.Add(mc.CI(lookAlike, mc.Big(20)))
+		e := mc.NewEnv(mc.EnvOptions{Balances: map[string]sdk.Coins{"A": coins, "B": coins, "C": cCoins, "R": nil}})
 		return e, &Driver{V: v}
 	}
 }
@@ -186,6 +191,8 @@ func (d *Driver) Enabled(e *mc.Env, s *mc.State) []mc.Op {
 		add("uniadd(C,btc,eth,a1)", opData{kind: "uniadd", who: "C", pool: "btc", side: "eth", amt: d.V.Amts[1], bound: "loose"})
 		// a holder parks some of the pool's own liquidity tokens on the pool's escrow account
 		add("donate(lpt->btc-pool)", opData{kind: "donate", who: "A", pool: "btc", side: "lpt", amt: d.V.Amts[1]})
+		// a withdrawal that offers a coin which is not a liquidity token at all
+		add("!rmliq(C,"+lookAlike+",a1)", opData{kind: "rmliq-foreign", who: "C", pool: "btc", side: lookAlike, amt: d.V.Amts[1], bound: "loose"})
 		if d.V.Params {
 			add("fee(1e-18)", opData{kind: "param", which: "fee", fee: sdkmath.LegacySmallestDec()})
 			add("fee(0.5)", opData{kind: "param", which: "fee", fee: sdkmath.LegacyNewDecWithPrec(5, 1)})
@@ -259,6 +266,8 @@ func (d *Driver) Enabled(e *mc.Env, s *mc.State) []mc.Op {
 		add(fmt.Sprintf("%s(%s,btc,deadline=past)", k, who), v)
 	}
 	add("rmliq(A,btc,all)", opData{kind: "rmliq", who: "A", pool: "btc", all: true, bound: "loose"})
+	// a withdrawal that offers a coin which is not a liquidity token at all (its name ends in the pool's sequence)
+	add("!rmliq(C,"+lookAlike+")", opData{kind: "rmliq-foreign", who: "C", pool: "btc", side: lookAlike, amt: a, bound: "loose"})
 	// a denom that sorts BEFORE the fixture pools' (the newest pool is then not the last one in denom order)
 	newDenom := "ada"
 	add("addliq(C,"+newDenom+",new-pool)", opData{kind: "addliq", who: "C", pool: newDenom, amt: a, bound: "loose"})
@@ -303,6 +312,8 @@ func (d *Driver) buildMsg(e *mc.Env, s *mc.State, od opData, b1, b2 sdkmath.Int)
 	case "rmliq":
 		lpt, _, _ := lptOf(e, s, od.pool)
 		return &cstypes.MsgRemoveLiquidity{WithdrawLiquidity: mc.CI(lpt, od.amt), MinToken: b1, MinStandardAmt: b2, Deadline: dl, Sender: who}
+	case "rmliq-foreign":
+		return &cstypes.MsgRemoveLiquidity{WithdrawLiquidity: mc.CI(od.side, od.amt), MinToken: b1, MinStandardAmt: b2, Deadline: dl, Sender: who}
 	case "uniadd":
 		return &cstypes.MsgAddUnilateralLiquidity{CounterpartyDenom: od.pool, ExactToken: mc.CI(od.side, od.amt), MinLiquidity: b1, Deadline: dl, Sender: who}
 	case "unirm":
@@ -321,7 +332,7 @@ func looseBounds(od opData) (sdkmath.Int, sdkmath.Int) {
 	case "addliq":
 		// affordable for every actor: when the pool is empty the whole MaxToken is deposited
 		return mc.Big(130), sdkmath.ZeroInt()
-	case "rmliq":
+	case "rmliq", "rmliq-foreign":
 		return sdkmath.ZeroInt(), sdkmath.ZeroInt()
 	case "uniadd":
 		return sdkmath.ZeroInt(), sdkmath.ZeroInt()
@@ -467,6 +478,19 @@ func (d *Driver) apply(e *mc.Env, s *mc.State, op mc.Op) []mc.Finding {
 		// a rejection (even with exactly-met bounds) moves nothing; the property speaks about successful messages
 		return fs
 	}
+	if od.kind == "rmliq-foreign" {
+		// "liquidity tokens are ... burned only against withdrawals, and ... no other coin's total supply changes":
+		// a withdrawal can only be paid for with the pool's own liquidity token
+		fs = append(fs, mc.F("C02/withdrawal-paid-with-foreign-coin/rmliq", "%s succeeded: the offered coin %s is not the liquidity token of any pool; moved [%s]", op.Name, od.side, got))
+		mt = "rmliq"
+	} else {
+		fs = append(fs, d.applyRest(e, s, op, od, mt, got, out, pre, b1, b2, learned, learnedOK)...)
+	}
+	return append(fs, d.shareValue(e, s, op, od, mt, out, pre, params.Fee)...)
+}
+
+func (d *Driver) applyRest(e *mc.Env, s *mc.State, op mc.Op, od opData, mt string, got mc.Delta, out mc.Outcome, pre map[string]poolObs, b1, b2 sdkmath.Int, learned mc.Delta, learnedOK bool) []mc.Finding {
+	var fs []mc.Finding
 	if od.past {
 		fs = append(fs, mc.F("C02/deadline-ignored/"+mt, "%s succeeded although its deadline (unix second %d) is before the block time %s", op.Name, deadline(s, true), s.Ctx.BlockTime().Format(time.RFC3339Nano)))
 	}
@@ -478,8 +502,12 @@ func (d *Driver) apply(e *mc.Env, s *mc.State, op mc.Op) []mc.Finding {
 
 	// ---------- C02: settlement structure ----------
 	fs = append(fs, d.settlement(e, s, od, mt, got, out, pre)...)
+	return fs
+}
 
-	// ---------- C01: value per share, fee-inclusive pricing ----------
+// shareValue: C01 - value per share, fee-inclusive pricing
+func (d *Driver) shareValue(e *mc.Env, s *mc.State, op mc.Op, od opData, mt string, out mc.Outcome, pre map[string]poolObs, fee sdkmath.LegacyDec) []mc.Finding {
+	var fs []mc.Finding
 	for cp, p0 := range pre {
 		p1, ok := d.obs(e, s, cp)
 		if !ok {
@@ -498,10 +526,10 @@ func (d *Driver) apply(e *mc.Env, s *mc.State, op mc.Op) []mc.Finding {
 		}
 		if od.kind == "swap" && od.in == od.out {
 			if cp == od.in {
-				fs = append(fs, sameDenomLegs(e, s, op.Name, mt, cp, p0, out.Events, params.Fee, od.buy)...)
+				fs = append(fs, sameDenomLegs(e, s, op.Name, mt, cp, p0, out.Events, fee, od.buy)...)
 			}
 		} else if od.kind == "swap" {
-			fs = append(fs, swapLegCheck(op.Name, mt, cp, p0, p1, params.Fee, od.buy)...)
+			fs = append(fs, swapLegCheck(op.Name, mt, cp, p0, p1, fee, od.buy)...)
 		}
 	}
 	return fs
